@@ -31,6 +31,21 @@ def decoder_roles(rep, rule, c, subject_text):
         return e
     WP = c.parse("self.bus.memory_map.window_patterns()")
     loops = [L for L in c.t.loops.values() if L.kind == 'gen' and unlist(c.norm(L.iter)) == WP]
+    elem = None
+    if not loops:
+        # for index, (map, name, (pat, ratio)) in enumerate(list(window_patterns())): the element is <list>[index]
+        en = [L for L in c.t.loops.values() if L.kind in ('enum', 'seq') and L.seq is not None and unlist(c.norm(L.seq)) == WP]
+        if len(en) == 1:
+            positional = any(x[0] == 'sub' and x[2] == ('idx', en[0].id) and x[1][0] == 'attr' and x[1][1] == ('name', 'self')
+                             for d in c.t.drivers for x in ir.walk(c.norm(d.target)))
+            if positional:
+                rep.bad(rule, site, "subordinate looked up by the window's map",
+                        "subordinates are paired with window_patterns() by position: windows are reported in address order, "
+                        "subordinates are stored in the order they were added, so strobes reach the wrong subordinate when "
+                        "windows are added out of address order")
+                return None
+            loops = en
+            elem = c.norm(('sub', en[0].seq, ('idx', en[0].id))) if en[0].kind == 'enum' else None
     if len(loops) != 1:
         # named wrong shape: subordinates paired with windows by *position* (insertion order vs address order)
         for L in c.t.loops.values():
@@ -51,10 +66,16 @@ def decoder_roles(rep, rule, c, subject_text):
         return None
     L = loops[0]
     r.L = L
-    r.map = ('item', L.id, (0,))
-    r.name = ('item', L.id, (1,))
-    r.pat = ('item', L.id, (2, 0))
-    r.ratio = ('item', L.id, (2, 1))
+    if elem is not None:
+        r.map = c.norm(('sub', elem, ('const', 0)))
+        r.name = c.norm(('sub', elem, ('const', 1)))
+        r.pat = c.norm(('sub', ('sub', elem, ('const', 2)), ('const', 0)))
+        r.ratio = c.norm(('sub', ('sub', elem, ('const', 2)), ('const', 1)))
+    else:
+        r.map = ('item', L.id, (0,))
+        r.name = ('item', L.id, (1,))
+        r.pat = ('item', L.id, (2, 0))
+        r.ratio = ('item', L.id, (2, 1))
     # the subordinate bus: a registry lookup keyed by the window's map
     subs = set()
     for d in c.t.drivers:
@@ -657,3 +678,38 @@ def argument_agreement(rep, rule, idx, scope=None):
                                 f"receives `{p_}`", line=call.lineno)
     rep.ok(rule, "-", "no resolved call passes two like-named arguments in each other's slot", f"{n_calls} resolved call(s) examined",
            nontrivial=n_calls > 0)
+
+
+def write_once_handles(rep, rule, idx, cls_spec):
+    """Objects the constructor creates and the hardware is built from (memory, memory data, ports, sub-components) are bound
+    to their attribute once: no other method rebinds `self.<attr>`.  A setter that replaces the object instead of updating
+    it leaves the elaborated hardware attached to the old one."""
+    import ast as _ast
+    cls = idx.find_class(cls_spec)
+    init = cls.method("__init__")
+    if init is None:
+        rep.unk(rule, cls.site, "constructor-owned objects", "no constructor")
+        return
+    owned = {}
+    for st in _ast.walk(init.node):
+        if isinstance(st, _ast.Assign) and len(st.targets) == 1 and isinstance(st.targets[0], _ast.Attribute) and \
+                isinstance(st.targets[0].value, _ast.Name) and st.targets[0].value.id == "self" and isinstance(st.value, _ast.Call):
+            fn = _ast.unparse(st.value.func)
+            if fn.split(".")[-1][:1].isupper() or fn.split(".")[-1] in ("read_port", "write_port"):
+                owned[st.targets[0].attr] = fn
+    bad = []
+    for name, fs in cls.methods.items():
+        if name == "__init__":
+            continue
+        for f in fs:
+            for st in _ast.walk(f.node):
+                tg = st.targets if isinstance(st, _ast.Assign) else ([st.target] if isinstance(st, (_ast.AugAssign, _ast.AnnAssign)) else [])
+                for t in tg:
+                    if isinstance(t, _ast.Attribute) and isinstance(t.value, _ast.Name) and t.value.id == "self" and t.attr in owned:
+                        bad.append((f, t.attr, st.lineno))
+    for f, attr, ln in bad:
+        rep.bad(rule, f.site, f"self.{attr} is bound once, by the constructor",
+                f"{f.qual} rebinds self.{attr} (created by the constructor as {owned[attr]}(...)): objects built from the original -- the memory, "
+                "its ports, the elaborated hardware -- keep using the old one, so the change never reaches them", line=ln)
+    if not bad:
+        rep.ok(rule, cls.site, f"constructor-owned objects of {cls.qual} are never rebound", f"{sorted(owned)}", nontrivial=bool(owned))
